@@ -73,6 +73,26 @@ def run(ctx):
         sp['opts']['refix'] = 2 + i % 4
         sp['opts']['refix_mode'] = 'prices'
     specs += rf
+    # relaxed ("soft") problems of portfolios with binary variables (order books, storages, plants): fractional former binaries
+    soft = gen.gen_many(ctx.seed, n // 3, dict(CFG, p_coarse=0.0, p_periodic=0.0, p_full_exec=1.0, p_no_simult=0.8, T=(4, 8), n_assets=(1, 3),
+                                               kinds={'OrderBook': 4, 'Storage': 2, 'SimpleContract': 2, 'Transport': 1}), 'c04soft_')
+    soft += gen.gen_many_plants(ctx.seed, n // 4, dict(CFG, freqs=['h'], units=['h'], tzs=[None], T=(4, 8), p_unaligned_end=0.0, p_profile=0.0, p_coarse=0.0, p_periodic=0.0), 'c04softp_')
+    for sp in soft:
+        sp['opts']['optimize'] = {'make_soft_problem': True}
+    specs += soft
+    # a wrapped asset may carry the name of an asset of the outer portfolio (names are unique per portfolio only)
+    import random
+    from props.C09 import asset_names
+    same = gen.gen_many(ctx.seed, n // 3, dict(CFG, p_coarse=0.0, p_periodic=0.0, n_assets=(2, 4), kinds={'StructuredAsset': 4, 'SimpleContract': 2, 'Storage': 1, 'Transport': 1}), 'c04nm_')
+    for sp in same:
+        rng = random.Random(str(sp['seed']) + '/same')
+        st = [a for a in sp['assets'] if a['kind'] == 'StructuredAsset']
+        outer = [a for a in sp['assets'] if a['kind'] not in ('StructuredAsset', 'ScaledAsset')]
+        if st and outer:
+            inner = rng.choice(rng.choice(st)['assets'])
+            if inner['kind'] != 'ScaledAsset':
+                rng.choice(outer)['name'] = inner['name']
+    specs += same
     specs = ctx.specs(specs)
     res = C.run_impl('portfolio', specs)
     exprs, owners = [], []
